@@ -11,7 +11,7 @@ from vf.ref import ips
 LEVEL = "exploration"
 RULE = (
     "well-formed cases: one per (generated IPS file built from a record list: plain, run-length, length 1 / 65535, adjacent, overlapping, "
-    "offsets up to 2^24-1; signed delta; placement of the directive at start/middle/end/inside a block, named scope, macro or loop); the "
+    "offsets up to 2^24-1, file lengths within -2..+5 of multiples of 512/4096/8192/65536; signed delta; placement of the directive at start/middle/end/inside a block, named scope, macro or loop, incl. deltas that follow a loop variable, a macro parameter or a constant assigned again later); the "
     "write_block calls must contain the records (RLE expanded) at offset+delta, in order and contiguous, and removing them must leave "
     "exactly the blocks and labels of the same program without the directive; malformed cases: every proper prefix of a generated file "
     "(truncation at every byte), a damaged header and a missing EOF must be rejected when the independent reader calls them malformed; "
@@ -56,6 +56,34 @@ def gen_records(rng: random.Random) -> list[dict]:
     return recs
 
 
+def sized_records(total: int, seed: int) -> list[dict]:
+    """A record list whose file is exactly `total` bytes long (5 header + records + 3 EOF): the end marker and record headers
+    then fall on chosen positions relative to typical read-buffer sizes."""
+    rng = random.Random(seed)
+    recs: list[dict] = []
+    left = total - 8
+    off = rng.choice([0, 0x10, 0x8000, 0x12345])
+    while left > 0:
+        if left < 6:
+            return sized_records(total, seed + 1) if total >= 14 else []
+        if rng.random() < 0.2 and left >= 8 + 6:
+            count = rng.choice([1, 3, 700])
+            recs.append({"off": off, "rle": (count, rng.randrange(256))})
+            left -= 8
+            off += count
+            continue
+        ln = min(left - 5, rng.choice([1, 7, 100, 4000, 0xFFFF]))
+        if 0 < left - 5 - ln < 6:
+            ln = max(1, ln - 6)
+        recs.append({"off": off, "data": bytes((i * 7 + seed) % 251 for i in range(ln))})
+        left -= 5 + ln
+        off += ln + rng.choice([0, 0, 5])
+    return recs
+
+
+SIZED_TOTALS = sorted({k * b + r for b in (512, 4096, 8192, 65536) for k in (1, 2, 3) for r in (-2, -1, 0, 1, 2, 3, 4, 5)})
+
+
 def build_program(rng: random.Random, delta: int, with_directive: bool, plan_: dict) -> dict:
     d = E(delta) if delta >= 0 else [["un", "-"], num(-delta)]
     inc = [{"k": "include_ips", "f": "p.ips", "delta": d}] if with_directive else []
@@ -78,12 +106,26 @@ def build_program(rng: random.Random, delta: int, with_directive: bool, plan_: d
         body += [{"k": "macro", "n": "maci", "ps": ["pa"], "b": [db(E("pa")[0][2] if False else 5)] + inc}] + pre + [{"k": "call", "n": "maci", "as": [E(1)]}] + post
     elif place == "before_org":
         body += pre + inc + [{"k": "org", "e": E(plan_["start"] + 0x1000)}] + post
+    elif place == "loop":
+        # one directive, expanded once per iteration with a delta that follows the loop variable
+        li = [{"k": "include_ips", "f": "p.ips", "delta": E("slot", "*", 0x800, "+", delta)}] if with_directive else []
+        body += pre + [{"k": "for", "v": "slot", "a": E(0), "b": E(3), "body": [db(9)] + li}] + post
+    elif place == "macro_param":
+        mi = [{"k": "include_ips", "f": "p.ips", "delta": E("pd")}] if with_directive else []
+        body += [{"k": "macro", "n": "maci", "ps": ["pd"], "b": [db(5)] + mi}] + pre
+        body += [{"k": "call", "n": "maci", "as": [E(delta)]}, db(6), {"k": "call", "n": "maci", "as": [E(delta + 0x400)]}] + post
+    elif place == "reassigned":
+        # the delta names a constant that is assigned again afterwards: each directive uses the value at its own position
+        vi = [{"k": "include_ips", "f": "p.ips", "delta": E("shv")}] if with_directive else []
+        body += pre + [{"k": "assign", "n": "shv", "e": E(delta)}] + vi + [db(6), {"k": "assign", "n": "shv", "e": E("shv", "+", 0x8000)}] + vi
+        body += [{"k": "assign", "n": "shv", "e": E(0x123)}] + post
     else:  # two directives
         body += pre + inc + [db(6)] + inc + post
     return {"prog": body, "files": {}, "tables": {}, "rom": "low"}
 
 
-PLACES = ["start", "middle", "end", "block", "scope", "macro", "before_org", "twice"]
+PLACES = ["start", "middle", "end", "block", "scope", "macro", "before_org", "twice", "loop", "macro_param", "reassigned"]
+VARYING = {"loop": (0, 0x800, 0x1000), "macro_param": (0, 0x400), "reassigned": (0, 0x8000), "twice": (0, 0)}
 
 
 def expected_records(recs: list[dict], delta: int) -> list[tuple[int, bytes]]:
@@ -104,7 +146,7 @@ def check_wellformed(res: Res, rng: random.Random, recs: list[dict], delta: int,
     p1 = build_program(rng, delta, True, plan_)
     p1["files"] = {"p.ips": raw}
     p0 = build_program(rng, delta, False, plan_)
-    wit = {"kind": "wellformed", "records": [{"off": r["off"], **({"rle": list(r["rle"])} if "rle" in r else {"data": r["data"].hex() if len(r["data"]) <= 64 else f"len={len(r['data'])}"})} for r in recs],
+    wit = {"kind": "wellformed", "sized": plan_.get("sized"), "records": [{"off": r["off"], **({"rle": list(r["rle"])} if "rle" in r else {"data": r["data"].hex() if len(r["data"]) <= 64 else f"len={len(r['data'])}"})} for r in recs],
            "file": raw.hex() if len(raw) <= 6000 else None, "delta": delta, "plan": plan_, "src": source(p1["prog"])}
     has_rle = any("rle" in r for r in recs)
     res.case((raw, delta, plan_["place"]), bool(recs))
@@ -116,13 +158,14 @@ def check_wellformed(res: Res, rng: random.Random, recs: list[dict], delta: int,
         res.undecided(f"the host program without the directive is rejected: {r0.err_kind} {r0.err_text[:100]}")
         return
     if not r1.ok:
-        res.violate("rle-record" if has_rle else "wellformed-rejected", f"well-formed IPS file ({len(recs)} record(s){', with run-length records' if has_rle else ''}) rejected: {r1.err_kind}: {r1.err_text[:160]}", wit)
+        res.violate("wellformed-rejected-by-file-length" if plan_.get("sized") and "unpack requires" in r1.err_text else "rle-record" if has_rle else "wellformed-rejected", f"well-formed IPS file ({len(recs)} record(s){', with run-length records' if has_rle else ''}) rejected: {r1.err_kind}: {r1.err_text[:160]}", wit)
         return
-    want = expected_records(recs, delta)
-    times = 2 if plan_["place"] == "twice" else 1
+    shifts = VARYING.get(plan_["place"], (0,))
+    times = len(shifts)
     got = [(a, bytes(b)) for a, b in r1.blocks]
     rest = list(got)
-    for _ in range(times):
+    for sh in shifts:
+        want = expected_records(recs, delta + sh)
         i = find_sub(rest, want)
         if i < 0:
             res.violate("records-not-reproduced",
@@ -178,9 +221,19 @@ def run_shard(shard: dict) -> Res:
         if lo + delta < 0:
             delta = -lo if rng.random() < 0.5 else 0
         plan_ = {"place": rng.choice(PLACES), "start": rng.choice([0x8000, 0x018000, 0x02C000])}
+        if plan_["place"] in ("loop", "macro_param", "reassigned") and delta < 0:
+            delta = -delta
         check_wellformed(res, rng, recs, delta, plan_)
         if i < 2:
             res.sample({"records": [(hex(r["off"]), ("rle", r["rle"]) if "rle" in r else len(r["data"])) for r in recs], "delta": delta, "place": plan_["place"]})
+        if i % 4 == 0:
+            # file lengths around multiples of usual read-buffer sizes: the reader must not depend on how the bytes arrive
+            total = SIZED_TOTALS[(shard["seed"] + i // 4) % len(SIZED_TOTALS)] if rng.random() < 0.8 else rng.choice(SIZED_TOTALS)
+            srecs = sized_records(total, shard["seed"] + i)
+            if srecs and len(ips.build(srecs)) == total:
+                res.count("sized_files")
+                res.see("sized_file_length_mod_8192", total % 8192)
+                check_wellformed(res, rng, srecs, rng.choice([0, 0x200, 0x10000]), {"place": rng.choice(PLACES), "start": 0x8000, "sized": [total, shard["seed"] + i]})
         if i % 8 < shard["trunc"]:
             small = [r if "rle" in r else {"off": r["off"], "data": r["data"][:20]} for r in recs[:3]]
             raw = ips.build(small)
@@ -195,6 +248,9 @@ def run_shard(shard: dict) -> Res:
 
 def replay(w: dict) -> Res:
     res = Res()
+    if w.get("sized"):
+        check_wellformed(res, random.Random(0), sized_records(*w["sized"]), w["delta"], w["plan"])
+        return res
     if w.get("file") is None:
         res.undecided("replay file carries no IPS bytes (too large)")
         return res
